@@ -23,7 +23,7 @@ PER_SIGNATURE = 3
 
 
 def run_trace(ctx, path, label):
-    t = ctx.tlc("RngTrace", files=[("trace.ndjson", path)], workers=1, label=label, timeout=1500, heap="8g")
+    t = ctx.tlc("RngTrace", files=[("trace.ndjson", path)], workers=1, label=label, timeout=1500, heap="12g")
     res = t.printed("RESULT")
     if not res:
         raise vlib.MachineryError("RngTrace printed no RESULT:\n" + t.tail())
@@ -91,7 +91,7 @@ def run(ctx):
             raise vlib.MachineryError("non-vacuity config %s did not produce a counterexample:\n%s" % (c, rr.tail(20)))
 
     # ------------------------------------------------------- code -> spec
-    n = 12000 if thorough else 2000
+    n = 30000 if thorough else 2000
     p = ctx.harness(["rng", "record", "--n", n, "--out", ctx.path("trace.ndjson"), "--cases", ctx.path("cases.ndjson"),
                      "--batch", 40 if thorough else 20, "--shards", 12], timeout=1500)
     stats = json.loads(p.stdout.strip().splitlines()[-1])
@@ -112,8 +112,11 @@ def run(ctx):
         last_case = events[-1]["case"]
         events = [e for e in events if e["case"] < last_case]      # whole cases only
         k1 = next(i for i, e in enumerate(events) if e["ev"] == "next" and e["run"] == 4 and any(d["kind"] == "dice" and d["b"] > 1 for d in e["draws"]))
-        k2 = next(i for i, e in enumerate(events) if e["ev"] == "next" and e["run"] == 1 and any(d["kind"] == "range" for d in e["draws"]) and i > k1)
-        k3 = next(i for i, e in enumerate(events) if e["ev"] == "next" and e["run"] == 3 and e["res"]["k"] == "line" and i > k2)
+        # the three corruptions go into three different cases (a run is reported once, at its first difference)
+        k2 = next(i for i, e in enumerate(events) if e["ev"] == "next" and e["run"] == 1 and any(d["kind"] == "range" for d in e["draws"])
+                  and e["case"] > events[k1]["case"])
+        k3 = next(i for i, e in enumerate(events) if e["ev"] == "next" and e["run"] == 3 and e["res"]["k"] == "line"
+                  and e["case"] > events[k2]["case"])
         mut = [json.loads(json.dumps(e)) for e in events]
         d = next(d for d in mut[k1]["draws"] if d["kind"] == "dice" and d["b"] > 1)
         d["v"] = d["v"] + 1 if d["v"] < d["b"] else d["v"] - 1        # another legal value: only the comparison can notice
